@@ -46,6 +46,25 @@ def harness_scen(sc, kind=None, share=None):
     return h
 
 
+def ring_image(h, m):
+    """image of an integer-gauge history under x -> x mod m (amounts "MIN" / "MAX" / "-MAX" are the ends of the i64 range)"""
+    names = {"MIN": -2 ** 63, "MAX": 2 ** 63 - 1, "-MAX": -(2 ** 63 - 1)}
+
+    def f(x):
+        x = names.get(x, x) if isinstance(x, str) else x
+        return x % m if isinstance(x, int) and not isinstance(x, bool) else x
+    calls = []
+    for c in h["calls"]:
+        c = dict(c)
+        if "v" in c:
+            c["v"] = f(c["v"])
+        if c.get("k") == "get":
+            c["res"] = f(c["res"])
+        calls.append(c)
+    fin = {k: f(v) for k, v in h.get("final", {}).items()}
+    return {"calls": calls, "final": fin, "mod": m}
+
+
 def check_model(ctx, sc, label, workers=4):
     d = {"MCScript": script_tla(sc["scripts"])}
     invs = "Atomicity NoLostIncrement ReadsExplained"
@@ -133,6 +152,8 @@ def run_scenario(ctx, pid, exe, sc, label, stats, samples, oracle_mod, oracle_in
         if x.get("nonterm"):
             continue
         h = intify({"calls": x["calls"], "final": x.get("fin", {})})
+        if sc.get("ring"):
+            h = ring_image(h, sc["ring"])
         key = json.dumps(h, sort_keys=True)
         if key not in seen:
             seen[key] = (h, x)
